@@ -27,7 +27,7 @@ RULE = (
     "failing parse that left >= 1 open scope after declaring a typedef, followed by a parse whose text uses that name; "
     "distinct by hash of the history."
 )
-ASSUMPTIONS = ["a fresh instance is the reference for every call"]
+ASSUMPTIONS = ["the reference for every parse is a private copy of the pycparser package created for that one call; a fresh instance inside the checking process is compared with it on every fourth call"]
 QUARANTINE = ()
 
 POOL = [
@@ -133,7 +133,17 @@ class Machine(RuleBasedStateMachine):
         self.history.append(("parse", kind, text, fname))
         Machine.stats.evaluations += 1
         got, ast = outcome(self.parser, text, fname)
-        exp, _ = outcome(c_parser.CParser(), text, fname)
+        # the reference: a private copy of the package made for this one call
+        # (vlib/pristine.py) - a fresh instance of the class under test would
+        # share whatever the class or module keeps between instances
+        from ..pristine import private_call
+
+        exp = private_call("parse_dump", text, fname)
+        Machine.stats.classes["references_from_private_copies"] += 1
+        if Machine.stats.evaluations % 4 == 0:
+            fresh, _ = outcome(c_parser.CParser(), text, fname)
+            if fresh != exp:
+                self.flunk("history", "call %d (%s): a FRESH CParser in this process differs from a copy of the package that has parsed nothing - %r vs %r" % (len(self.history), kind, fresh[:2] if fresh[0] == "err" else "ok", exp[:2] if exp[0] == "err" else "ok"), "history:class-level-state")
         if got != exp:
             a = got[:2] if got[0] == "err" else got[0]
             b = exp[:2] if exp[0] == "err" else exp[0]
